@@ -175,7 +175,9 @@ def pipeline_diag(work, driver, cases, limit=400, tag="pipe"):
     Returns a model-style dict for the evidence."""
     import subprocess
     # every second case with a recording monitor, so that the reported crossing number can be compared with the recorded order
-    sub = [dict(c, stages=1, reps=0, case=i + 1, mon=1 if i % 2 == 0 else c.get("mon", 0)) for i, c in enumerate(cases[:limit]) if c.get("p5") != "splines"]
+    # spline cases only where the router cannot hang (known findings of C01), and always with the monitor (it carries the corridors)
+    sub = [dict(c, stages=1, reps=0, case=i + 1, mon=1 if (i % 2 == 0 or c.get("p5") == "splines") else c.get("mon", 0))
+           for i, c in enumerate(cases[:limit]) if c.get("p5") != "splines" or not core.case_facts(c)["_degenerate_corridor_or_bk"]]
     if not sub:
         return None
     d = work.sub(tag)
@@ -211,7 +213,7 @@ def pipeline_diag(work, driver, cases, limit=400, tag="pipe"):
         return None
     if drift:
         log("[pipe] DRIFT (diagnostic, not a verdict): %s" % json.dumps(drift, sort_keys=True))
-    return dict(name="PipelineTrace.tla: %d stage snapshots of %d calls against the phase contracts of Pipeline.tla (layer 2) and %d phase-1 / layering / helper-node / ordering / coordinate / route / crossing-count / collect results predicted exactly by CycleBreakOps, NetSimplexOps, LongestPathOps, BreakAll, WMedianOps, PositionOps, NSPositionOps, BKOps, RouteOps, OrderCrossings, Collect (layer 3), %d drifting" % (stats["stages"], stats["calls"], stats["l3predictions"], stats["drift"]),
+    return dict(name="PipelineTrace.tla: %d stage snapshots of %d calls against the phase contracts of Pipeline.tla (layer 2) and %d phase-1 / layering / helper-node / ordering / coordinate / route / crossing-count / collect results predicted exactly by CycleBreakOps, NetSimplexOps, LongestPathOps, BreakAll, WMedianOps, PositionOps, NSPositionOps, BKOps, RouteOps (routes and spline corridors), OrderCrossings, Collect (layer 3), %d drifting" % (stats["stages"], stats["calls"], stats["l3predictions"], stats["drift"]),
                 generated=int(m.group(1)), distinct=int(m.group(2)), wall=time.time() - t0, ok=True, drift=drift)
 
 
